@@ -34,8 +34,13 @@ def run(ctx, spec, rng):
     globals()["_run_" + spec[0]](ctx, spec, rng)
 
 
+def _unseeded(fn, k):
+    """Unseeded generators draw from OS entropy by design: their values are not part of the call-history comparison."""
+    return getattr(fn, "__module__", "").startswith("toqito.rand") and k.get("seed") is None
+
+
 def _call(ctx, fn, *a, **k):
-    v = ctx.call(fn, *a, **k)
+    v = ctx.call(fn, *a, history=not _unseeded(fn, k), **k)
     return None if v is FAILED else v
 
 
@@ -194,7 +199,7 @@ def _run_hist(ctx, spec, rng):
         seeded = rng.random() < 0.75
         seed = seeds[int(rng.integers(0, len(seeds)))] if seeded else None
         before = snap.global_rng_digest()
-        out = ctx.call(fn, *args, seed=seed)
+        out = ctx.call(fn, *args, seed=seed, history=seed is not None)
         after = snap.global_rng_digest()
         if out is FAILED:
             continue
